@@ -503,6 +503,11 @@ func stateFoundObjectKeyBegin(s *Scanner, c byte) state {
 		if s.annotation == annotationNone {
 			s.allowAnnotation = true
 		}
+		if c == '\n' && s.index >= 2 && s.data[s.index-2] == '\r' {
+			// The LF of a CRLF whose CR has ended an inline annotation (a CR read
+			// by this state leaves it): still the same line break, as with LF or CR.
+			return scanContinue
+		}
 		s.step = stateFoundObjectKeyBeginAfterNewLine
 		return scanContinue
 	}
